@@ -254,6 +254,15 @@ Definition obj_add_ex (al : alloc) (fail1 : bool) (t : table) (k : key) (v : val
       else lh_table_insert_w_hash al t k v cst
   end.
 
+(* json_object_object_add_ex(jso, key, jso, opts): the lookup has been done (it changes
+   nothing), then `if (jso == val) return -1;` before anything is stored, released or
+   allocated - whether or not the key is present, whatever the flags and the fill level *)
+Definition obj_add_self (t : table) (k : key) (is_new cst : bool) : ires :=
+  match (if is_new then None else lh_table_lookup_entry t k) with
+  | Some _ => IFail
+  | None => IFail
+  end.
+
 (* json_object_object_del ignores the result of lh_table_delete *)
 Definition obj_del (t : table) (k : key) : option table :=
   match lh_table_delete t k with
@@ -336,6 +345,7 @@ Definition a_filter_out (p : key -> bool) (m : amap) : amap :=
 (* ---------------- operation histories ---------------- *)
 Inductive op :=
 | OAdd (k : key) (v : val) (is_new cst : bool) (fail1 : bool)
+| OAddSelf (k : key) (is_new cst : bool)      (* add(obj, k, obj): refused *)
 | ODel (k : key)
 | OGet (k : key)
 | OForeachDel (bykey : bool) (p : key -> bool).
@@ -345,6 +355,12 @@ Definition obj_step (al : alloc) (t : table) (o : op) : option (table * bool) :=
   match o with
   | OAdd k v is_new cst fail1 =>
       match obj_add_ex al fail1 t k v is_new cst with
+      | IOk t' => Some (t', true)
+      | IFail => Some (t, false)
+      | IOut _ => None
+      end
+  | OAddSelf k is_new cst =>
+      match obj_add_self t k is_new cst with
       | IOk t' => Some (t', true)
       | IFail => Some (t, false)
       | IOut _ => None
@@ -370,6 +386,7 @@ Fixpoint obj_run (al : alloc) (t : table) (ops : list op) : option (table * list
 Definition spec_step (m : amap) (o : op) (ok : bool) : amap :=
   match o with
   | OAdd k v _ _ _ => if ok then a_add m k v else m
+  | OAddSelf _ _ _ => m
   | ODel k => a_del m k
   | OGet _ => m
   | OForeachDel _ p => a_filter_out p m
@@ -418,6 +435,7 @@ Arguments DOk {key val}.
 Arguments DNone {key val}.
 Arguments DUB {key val}.
 Arguments OAdd {key val}.
+Arguments OAddSelf {key val}.
 Arguments ODel {key val}.
 Arguments OGet {key val}.
 Arguments OForeachDel {key val}.
@@ -444,6 +462,7 @@ Arguments lh_table_delete_entry {key val}.
 Arguments lh_table_delete {key val}.
 Arguments set_val {key val}.
 Arguments obj_add_ex {key val}.
+Arguments obj_add_self {key val}.
 Arguments obj_del {key val}.
 Arguments obj_get_ex {key val}.
 Arguments obj_length {key val}.
